@@ -498,7 +498,9 @@ def run_cfg(ctx, p, cfg):
                 if zedge is not None:
                     sw = si
                     sw_zero = zedge
-        r.require(sw is not None and sw.b == 0, "zero-count-tested-first", fn=f, detail="roll() begins by testing count == 0")
+        first = sw is not None and all(f.dominates(sw.b, c.block) and c.block != sw.b
+                                       for c in f.calls() if (c.callee or "").startswith("std::fs::") or c.callee in p.fns)
+        r.require(sw is not None and (sw.b == 0 or first), "zero-count-tested-first", fn=f, detail="roll() tests count == 0 before any file-system or helper call")
         if sw:
             zt, nz = sw.target_of(sw_zero), sw.target_of(not sw_zero)
             zr = f.reach(zt, include_src=True) - f.reach(nz, include_src=True)
@@ -511,7 +513,14 @@ def run_cfg(ctx, p, cfg):
                 zall = f.reach(zt, include_src=True)
                 rets = [e for b, e in q.ret_assignments(f) if b in zall and any(x[0] == "call" and x[1] == "std::fs::remove_file" for x in walk(e))]
                 rets = rets if (rets and common.result_is_checked(f, fsc[0], strict=True)) else []
-            r.require(bool(rets) and all(any(x[0] == "call" and x[1] == "std::fs::remove_file" for x in walk(e)) for e in rets), "returns-its-result", fn=f,
+            direct = bool(rets) and all(any(x[0] == "call" and x[1] == "std::fs::remove_file" for x in walk(e)) for e in rets)
+            # `remove_file(file)?; Ok(())`: the error is propagated and Ok is only returned on the success edge
+            via_try = bool(rets) and bool(fsc) and common.result_is_checked(f, fsc[0], strict=True) and all(
+                any(x[0] == "call" and x[1] == "std::fs::remove_file" for x in walk(e)) or (q.classify_ret(e) == "ok" and any(
+                    any(x[0] == "call" and x[1] == "std::fs::remove_file" for x in walk(si.discr)) and {si.label(v) for v, _ in al} <= {"Continue", "Ok"}
+                    for sb, si, al in f.conditions(b)))
+                for b, e in q.ret_assignments(f) if b in zr)
+            r.require(direct or via_try, "returns-its-result", fn=f,
                       detail="returned on that edge: %s" % [show(e, 4) for e in rets])
             nzr = f.reach(nz, include_src=True)
             r.require(any(c.block in nzr for c in f.calls(ro["rotate"].path)) or bg, "otherwise-rotates", fn=f, detail="count != 0 reaches rotate")
@@ -658,8 +667,8 @@ def _count_guard_dominates_rotate(p):
         if host is not f:
             return False
     for blk in f.blocks:
-        if blk["term"]["k"] == "switch" and blk["id"] == 0:
-            si = SwitchInfo(f, 0)
+        if blk["term"]["k"] == "switch" and blk["id"] in f.reachable_blocks() and all(f.dominates(blk["id"], c.block) for c in sites if c.fn is f):
+            si = SwitchInfo(f, blk["id"])
             zedge = zero_test(si, ("field", ("param", 1), ro["count_field"]))
             if zedge is not None:
                 zt = si.target_of(zedge)
